@@ -659,6 +659,7 @@ package diam
 //@   ensures [C20] found_iff_present: err == nil <==> hasmatch(avps, code)
 //@   ensures [C20] first_in_document_order: !findMultiple && err == nil ==> len(r) == 1 && r[0] == firstmatch(avps, code)
 //@   ensures [C20] all_of_them: findMultiple && err == nil ==> len(r) == nmatch(avps, code)
+//@   ensures [C20] starting_with_the_first_in_document_order: findMultiple && err == nil ==> len(r) > 0 && r[0] == firstmatch(avps, code)
 //@   ensures [C20] only_that_code: err == nil ==> forall j int :: 0 <= j && j < len(r) ==> r[j] != nil && r[j].Code == code
 //@   ensures [C20] absent: err != nil ==> len(r) == 0
 //@   posthint nmatch.nonneg(avps, code)
@@ -668,6 +669,7 @@ package diam
 //@     invariant result_is_private: avpResult == nil || fresh(avpResult)
 //@     invariant [C20] single: !findMultiple ==> len(avpResult) == 0 && !hasmatch(avps[0:rangeindex+1], code)
 //@     invariant [C20] multi: findMultiple ==> len(avpResult) == nmatch(avps[0:rangeindex+1], code)
+//@     invariant [C20] multi_first: findMultiple && len(avpResult) > 0 ==> avpResult[0] == firstmatch(avps[0:rangeindex+1], code)
 //@     invariant [C20] only_that_code: forall j int :: 0 <= j && j < len(avpResult) ==> avpResult[j] != nil && avpResult[j].Code == code
 //@     hint hasmatch.step(avps, code, rangeindex + 2)
 //@     hint nmatch.step(avps, code, rangeindex + 2)
